@@ -466,3 +466,46 @@ def expand_through_helpers(cls, fn, expr, depth=3):
                 return go(m.node, S().visit(_copy.deepcopy(tbl[0].value)), d - 1)
         return R().visit(e)
     return go(fn.node, _copy.deepcopy(expr), depth)
+
+
+def template_hooks_clause(ctx, res, prop, cid, root_name, floor=1):
+    """template-method discipline of one class hierarchy: a method of the root class that works through an overridable hook
+    (`self._hook(..)`, the hook being redefined by some subclass) is the only way the hook's redefinitions get to act; a subclass that
+    redefines such a method has to go through the same hook (or delegate to the inherited method), otherwise the classes below it -
+    which redefine the hook, not the method - are silently bypassed"""
+    from ..report import Finding
+    from ..loader import walk_own, norm
+    repo = ctx.repo
+    root = repo.cls(root_name)
+    subs = repo.subclasses(root_name)
+    c = res.clause(cid, 'R-SIBLING', 'overridden entry points of %s keep dispatching to the overridable hooks' % root_name, floor=floor)
+
+    def hooks_called(fn):
+        return {self_attr(n.func) for n in ast.walk(fn.node) if isinstance(n, ast.Call) and self_attr(n.func) and self_attr(n.func).startswith('_')
+                and not self_attr(n.func).startswith('__')}
+    overridden = {nm for s in subs for nm in s.methods if nm.startswith('_') and not nm.startswith('__')}
+    for nm, m in sorted(root.methods.items()):
+        hooks = hooks_called(m) & overridden & set(root.methods)
+        if not hooks or (nm.startswith('_') and not nm.startswith('__')):
+            continue
+        for s in subs:
+            if nm not in s.methods:
+                continue
+            o = s.methods[nm]
+            delegates = any(isinstance(n, ast.Call) and isinstance(n.func, ast.Attribute) and n.func.attr == nm and
+                            ((isinstance(n.func.value, ast.Call) and isinstance(n.func.value.func, ast.Name) and n.func.value.func.id == 'super') or
+                             (isinstance(n.func.value, ast.Name) and repo.find_class(n.func.value.id) is not None))
+                            for n in ast.walk(o.node))
+            raises_only = all(isinstance(x, (ast.Raise, ast.Expr, ast.Pass)) for x in o.node.body)
+            below = [d.name for d in subs if d is not s and d.is_subclass_of(s.name) and (hooks & set(d.methods))]
+            ok = delegates or hooks <= hooks_called(o) or raises_only or not below
+            c.instance('%s.%s goes through %s like %s.%s' % (s.name, nm, sorted(hooks), root.name, nm), o.qualname, ok)
+            c.evaluations += 1
+            if not ok:
+                res.add(Finding(prop, cid, 'R-SIBLING', o.file, o.qualname, o.node.lineno, '%s.%s' % (s.name, nm),
+                                '%s.%s no longer goes through %s: %s redefine%s that hook and %s never called for them (what they do on every '
+                                'write - forwarding, queueing - silently stops happening)' % (
+                                    s.name, nm, '/'.join(sorted(hooks - hooks_called(o))), ', '.join(below), 's' if len(below) == 1 else '',
+                                    'it is' if len(hooks) == 1 else 'they are')))
+        c.instance('%s.%s dispatches to %s (redefined below)' % (root.name, nm, sorted(hooks)), m.qualname, True)
+    return c
